@@ -61,7 +61,13 @@ class Rule :
             if hasattr(self, 'arg_paths'):
                 body = m.body or []
                 for idx, val in self.arg_paths:
-                    if idx >= len(body) or not body[idx].startswith(val):
+                    if idx >= len(body) or not isinstance(body[idx], str):
+                        return
+                    a = body[idx]
+                    # equal, or whichever ends in '/' is a prefix of the other
+                    if not (a == val
+                            or (val.endswith('/') and a.startswith(val))
+                            or (a.endswith('/') and val.startswith(a))):
                         return
 
             # XXX arg0namespace -- Not quite sure how this one works
